@@ -205,6 +205,7 @@ import (
 	"time"
 
 	"github.com/google/wire"
+	_ "github.com/pmezard/go-difflib/difflib"
 )
 
 var shared = A{V: 41}
@@ -283,10 +284,13 @@ def setup(root, program, cfg):
         shutil.copy(os.path.join(core.REPO, 'wire.go'), os.path.join(dep, 'github.com/google/wire', 'wire.go'))
         os.makedirs(os.path.join(dep, 'github.com/google/subcommands'), exist_ok=True)
         shutil.copy(os.path.join(sub, 'subcommands.go'), os.path.join(dep, 'github.com/google/subcommands', 'subcommands.go'))
+        dl = os.path.join(modcache(), 'github.com/pmezard/go-difflib@v1.0.0/difflib')
+        os.makedirs(os.path.join(dep, 'github.com/pmezard/go-difflib/difflib'), exist_ok=True)
+        shutil.copy(os.path.join(dl, 'difflib.go'), os.path.join(dep, 'github.com/pmezard/go-difflib/difflib', 'difflib.go'))
     else:
         proj = os.path.join(base, 'proj')
         os.makedirs(proj, exist_ok=True)
-        write(os.path.join(proj, 'go.mod'), 'module %s\n\ngo 1.19\n\nrequire (\n\tgithub.com/google/subcommands v1.2.0\n\tgithub.com/google/wire v0.0.0\n)\n\nreplace github.com/google/wire => %s\n' % (MODP, core.REPO))
+        write(os.path.join(proj, 'go.mod'), 'module %s\n\ngo 1.19\n\nrequire (\n\tgithub.com/google/subcommands v1.2.0\n\tgithub.com/google/wire v0.0.0\n\tgithub.com/pmezard/go-difflib v1.0.0\n)\n\nreplace github.com/google/wire => %s\n' % (MODP, core.REPO))
         shutil.copy(os.path.join(core.REPO, 'go.sum'), os.path.join(proj, 'go.sum'))
     for name, txt in PROGRAMS[program].items():
         write(os.path.join(proj, 'app', name), txt)
@@ -317,13 +321,14 @@ def setup(root, program, cfg):
 
 def run_config(wire, root, program, cfg):
     proj, env, cwd, pats = setup(root, program, cfg)
-    rc, so, se, dt = core.run([wire, 'gen'] + pats, cwd=cwd, env=env, timeout=300)
+    targs = ['-tags', cfg['tags']] if cfg.get('tags') else []
+    rc, so, se, dt = core.run([wire, 'gen'] + targs + pats, cwd=cwd, env=env, timeout=300)
     out = os.path.join(proj, 'app', 'wire_gen.go')
     data = open(out, 'rb').read() if os.path.exists(out) else b''
     txt = data.decode('utf-8', 'replace')
     leak = (root in txt) or ('/tmp/' in txt) or (socket.gethostname() in txt and len(socket.gethostname()) > 3) \
         or bool(re.search(r'20\d\d-\d\d-\d\d|\d\d:\d\d:\d\d', txt)) or ('vendor/' in txt)
-    return {'program': program, 'config': cfg, 'exit': rc, 'digest': hashlib.sha256(data).hexdigest() if data else 'none',
+    return {'program': program + ('+tags' if cfg.get('tags') else ''), 'config': cfg, 'exit': rc, 'digest': hashlib.sha256(data).hexdigest() if data else 'none',
             'leak': bool(leak), 'bytes': len(data), 'stderr': se[-400:] if rc != 0 else ''}
 
 
@@ -374,13 +379,14 @@ def run(ctx, reps, sample=None):
     cov['configurations'] = total
     cov['programs'] = len(PROGRAMS)
     cov['distinct_nontrivial'] = len({json.dumps([o['program'], {k: v for k, v in o['config'].items() if k != 'rep'}], sort_keys=True) for o in obs})
-    cov['digests'] = {p: sorted({o['digest'][:12] for o in obs if o['program'] == p}) for p in PROGRAMS}
+    cov['digests'] = {p: sorted({o['digest'][:12] for o in obs if o['program'] == p}) for p in sorted({o['program'] for o in obs})}
     cov['samples'] += [{k: o[k] for k in ('program', 'config', 'exit', 'digest', 'leak', 'bytes')} for o in obs[:3]]
     log('C16 judge: %d runs, %d rejected' % (len(obs), len(bad)))
     seen = set()
     for i in bad:
         o = obs[i]
         key = 'X/%s/%s/%s/%s/%s' % (o['program'], o['config']['layout'], o['config']['loc'].split('/')[0], o['config']['invoke'], o['config']['company'])
+        o = dict(o, program=o['program'].replace('+tags', ''))
         if key in seen:
             continue
         seen.add(key)
